@@ -23,6 +23,8 @@ type Tape struct {
 	Chooses []int64  `json:"chooses"`
 	Expect  string   `json:"expect"`
 	Sched   bool     `json:"sched"`
+	Env     []int64  `json:"env,omitempty"`  // order of environment events to stage natively (only for library-priority counterexamples)
+	Race    bool     `json:"race,omitempty"` // replay under the race detector
 
 	obs     []ObsVal
 	failure *Failure
@@ -40,6 +42,8 @@ type NativeResult struct {
 	Observes   []ObsVal `json:"observes"`
 	Deadlock   bool     `json:"deadlock"`
 	Skipped    string   `json:"skipped"`
+	GateBroken bool     `json:"gate_broken"`
+	RaceSeen   bool     `json:"race_seen"`
 }
 
 var harnessPkgs = []struct{ dir, rel, imp string }{
@@ -135,6 +139,18 @@ func runNative(genDir, hdir string, tapes []*Tape) (map[string]*NativeResult, er
 			need[p] = true
 		}
 	}
+	var raceTapes []*Tape
+	{
+		var plain []*Tape
+		for _, t := range tapes {
+			if t.Race {
+				raceTapes = append(raceTapes, t)
+			} else {
+				plain = append(plain, t)
+			}
+		}
+		tapes = plain
+	}
 	tapeFile := filepath.Join(genDir, "tapes.json")
 	data, _ := json.Marshal(tapes)
 	if err := os.WriteFile(tapeFile, data, 0o644); err != nil {
@@ -191,7 +207,74 @@ func runNative(genDir, hdir string, tapes []*Tape) (map[string]*NativeResult, er
 		}(hp.dir, hp.imp)
 	}
 	wg.Wait()
+	if len(raceTapes) > 0 && firstErr == nil {
+		if err := runRaceTapes(genDir, hdir, ov, raceTapes, results); err != nil {
+			firstErr = err
+		}
+	}
 	return results, firstErr
+}
+
+// runRaceTapes replays data-race counterexamples under the Go race detector: one process per
+// tape, built with -race; the race is reproduced when the detector reports one.
+func runRaceTapes(genDir, hdir, ov string, tapes []*Tape, results map[string]*NativeResult) error {
+	bins := map[string]string{}
+	for _, hp := range harnessPkgs {
+		needed := false
+		for _, t := range tapes {
+			if harnessPkgOf(hdir, t.Harness) == hp.dir {
+				needed = true
+			}
+		}
+		if !needed {
+			continue
+		}
+		bin := filepath.Join(genDir, hp.dir+".race.test")
+		cmd := exec.Command("go", "test", "-c", "-race", "-tags", "verif", "-vet=off", "-overlay", ov, "-o", bin, hp.imp)
+		cmd.Dir = repoDir
+		cmd.Env = append(goEnv(), "CGO_ENABLED=1")
+		if out, err := cmd.CombinedOutput(); err != nil {
+			return fmt.Errorf("go test -c -race %s: %v\n%s", hp.imp, err, out)
+		}
+		bins[hp.dir] = bin
+	}
+	var mu sync.Mutex
+	var wg sync.WaitGroup
+	sem := make(chan struct{}, 8)
+	for i, t := range tapes {
+		bin := bins[harnessPkgOf(hdir, t.Harness)]
+		if bin == "" {
+			continue
+		}
+		wg.Add(1)
+		go func(i int, t *Tape, bin string) {
+			defer wg.Done()
+			sem <- struct{}{}
+			defer func() { <-sem }()
+			tf := filepath.Join(genDir, fmt.Sprintf("racetape%d.json", i))
+			data, _ := json.Marshal([]*Tape{t})
+			os.WriteFile(tf, data, 0o644)
+			run := exec.Command(bin, "-test.run", "^TestVHReplay$", "-test.timeout", "300s")
+			run.Dir = repoDir
+			run.Env = append(goEnv(), "VH_TAPES="+tf, "TZ=Asia/Shanghai", "GORACE=halt_on_error=0")
+			out, _ := run.CombinedOutput()
+			res := &NativeResult{ID: t.ID, Harness: t.Harness}
+			for _, line := range strings.Split(string(out), "\n") {
+				if strings.HasPrefix(line, "VHRESULT ") {
+					var r NativeResult
+					if json.Unmarshal([]byte(line[9:]), &r) == nil {
+						res = &r
+					}
+				}
+			}
+			res.RaceSeen = strings.Contains(string(out), "WARNING: DATA RACE")
+			mu.Lock()
+			results[t.ID] = res
+			mu.Unlock()
+		}(i, t, bin)
+	}
+	wg.Wait()
+	return nil
 }
 
 // compareWitness checks a natively replayed witness against the engine's
@@ -281,7 +364,7 @@ func cmdReplay(args []string) int {
 	}
 	out, _ := json.MarshalIndent(r, "", " ")
 	fmt.Println(string(out))
-	if len(r.Fails) > 0 || r.Panic != "" || r.Deadlock {
+	if ((len(r.Fails) > 0 || r.Panic != "" || r.Deadlock) && !r.GateBroken && !rec.Tape.Race) || (rec.Tape.Race && r.RaceSeen) {
 		fmt.Printf("VIOLATION property=%s replay=%s\n", rec.Property, args[0])
 		return 1
 	}
